@@ -115,6 +115,44 @@ def time_limit(seconds):
         signal.signal(signal.SIGALRM, old)
 
 
+def instantiate_py(w):
+    """instantiate on ppci's python wasm target.  All python instances of a process share one runtime heap that only
+    grows (see runtime_probe); drop the singleton runtime before its addresses approach 2^31 so that a long run of this
+    check is not stopped by that defect of the executor"""
+    from ppci.wasm import instantiate
+    from ppci.wasm.execution import _python_instance as PI
+    holder = PI.get_irpy_rt
+    if hasattr(holder, '_instance') and holder._instance.rt.heap_top() > (1 << 30):
+        delattr(holder, '_instance')
+    return instantiate(w, {}, target='python')
+
+
+def runtime_probe(ctx):
+    """evidence note about the oracle engine: python instances pile up in one process-wide heap; without the
+    workaround in instantiate_py every instantiate fails in store_i32 after (2^31 - HEAP_START) / growth instantiations"""
+    ir, R, ppci2wasm, components = _ppci()
+    w = compile_module(binop_module(ir, '+', 'i32'))
+    with quiet():
+        i1 = instantiate_py(w)
+        t1 = i1._py_module.rt.heap_top()
+        i2 = instantiate_py(w)
+        t2 = i2._py_module.rt.heap_top()
+    shared = i1._py_module.rt.heap is i2._py_module.rt.heap
+    try:
+        i2._py_module.rt.store_i32(t2 - 8, 1 << 31)
+        signed_ptr = False
+    except Exception:
+        signed_ptr = True
+    # a limitation of the ORACLE engine (ppci's python wasm target), not of ir_to_wasm: recorded as evidence only;
+    # instantiate_py works around it, so it can no longer stop a run of this check
+    ctx.cov['stages']['oracle_limitations'] = {
+        'python_target_shared_heap': shared, 'growth_per_instance': t2 - t1, 'store_i32_rejects_2^31': signed_ptr,
+        'instantiations_until_failure_without_workaround':
+            (((1 << 31) - t2) // (t2 - t1)) if t2 > t1 else None,
+        'note': 'all python instances of a process share one runtime heap that only grows; instantiate_py recreates '
+                'the singleton runtime before the heap passes 2^30'}
+
+
 def _ppci():
     from vlib import ensure_repo_on_path
     ensure_repo_on_path()
@@ -516,7 +554,7 @@ def stage_e2e_cfg(ctx):
                 stats['max_br_depth'] = max(stats['max_br_depth'], i_.args[0].index)
         try:
             with quiet():
-                inst = instantiate(w, {}, target='python')
+                inst = instantiate_py(w)
         except Exception as ex:
             ctx.violation({'fn': 'ir_to_wasm.cfg', 'key': 'cfg-invalid-module', 'cfg': repr(terms), 'error': repr(ex)[:300],
                            'what': 'ir_to_wasm output cannot be instantiated',
@@ -960,7 +998,7 @@ def stage_ops(ctx, rows, crows):
             m = binop_module(ir, op, tyname) if kind == 'binop' else cmp_module(ir, op, tyname)
             try:
                 with quiet():
-                    inst = instantiate(compile_module(m), {}, target='python')
+                    inst = instantiate_py(compile_module(m))
             except Exception as ex:
                 ctx.violation({'fn': 'instantiate', 'key': 'instantiate-%s' % kind, 'args': [op, tyname], 'error': repr(ex),
                                'how_to_replay': 'tools/props/c23.%s_module + ir_to_wasm + instantiate(target=python)' % kind})
@@ -1040,7 +1078,7 @@ def stage_casts(ctx):
             m = cast_module(ir, fr, to)
             try:
                 with quiet():
-                    inst = instantiate(compile_module(m), {}, target='python')
+                    inst = instantiate_py(compile_module(m))
             except Exception:
                 continue
             fb, fs = tybits[fr]
@@ -1136,7 +1174,7 @@ def stage_data(ctx):
                            'actual': got, 'how_to_replay': 'IrToWasmCompiler().compile(module); create_wasm_module()'})
         try:
             with quiet():
-                inst = instantiate(w, {}, target='python')
+                inst = instantiate_py(w)
             mem = inst._memories[0]
             n_inst += 1
             for (name, amount, flat), (_, addr) in zip(gv, labs):
@@ -1195,7 +1233,7 @@ def stage_e2e(ctx, relooper_known):
                 continue
             try:
                 with quiet():
-                    inst = instantiate(w, {}, target='python')
+                    inst = instantiate_py(w)
             except Exception as ex:
                 # ir_to_wasm accepted the module but the result cannot be instantiated (invalid labels, types...)
                 stats['instantiate_failed'] = stats.get('instantiate_failed', 0) + 1
@@ -1244,7 +1282,7 @@ def stage_e2e(ctx, relooper_known):
                         break
                     # the reference run modified the globals of its own machine only; re-instantiate to stay in sync
                     with quiet():
-                        inst = instantiate(w, {}, target='python')
+                        inst = instantiate_py(w)
     finally:
         irgen.INT_TYPES = saved
     ctx.cov['programs'] = ctx.cov.get('programs', 0) + stats['modules']
@@ -1279,6 +1317,7 @@ def run(ctx):
     ctx.build(['Model/ShapeCheck.vo', 'Model/ShapeCompile.vo', 'Model/Ir2WasmOps.vo', 'Lib/Val.vo'])
     import time
     t0 = time.time()
+    runtime_probe(ctx)
     known = stage_shapes(ctx)
     t1 = time.time()
     if rows:
